@@ -24,6 +24,38 @@ pub fn run_case(f: &[&str]) -> String {
     let path = std::path::PathBuf::from(format!("{}/v{}.sock", dir, std::process::id()));
     let _ = std::fs::remove_file(&path);
     let server = Arc::new(if kind == "t" { Server::http("127.0.0.1:0").unwrap() } else { Server::http_unix(&path).unwrap() });
+    // pre=<n>:<idle ms>: an earlier burst of n connections (one request each, answered, all closed), then idleness
+    // (the pool's surplus workers retire after 5 s): what arrives afterwards must be delivered all the same
+    if let Some(p) = f.iter().find_map(|x| x.strip_prefix("pre=")) {
+        let mut it = p.split(':');
+        let n: usize = it.next().unwrap().parse().unwrap();
+        let idle: u64 = it.next().unwrap_or("0").parse().unwrap();
+        let mut pre: Vec<crate::cv::Conn> = Vec::new();
+        for k in 0..n {
+            let mut s = if kind == "t" {
+                crate::cv::Conn::T(std::net::TcpStream::connect(server.server_addr().to_ip().unwrap()).unwrap())
+            } else {
+                crate::cv::Conn::U(std::os::unix::net::UnixStream::connect(&path).unwrap())
+            };
+            let _ = s.write_all(format!("GET /pre{} HTTP/1.1\r\nHost: h\r\n\r\n", k).as_bytes());
+            pre.push(s);
+        }
+        let mut got = 0;
+        let t0 = Instant::now();
+        while got < n && t0.elapsed() < Duration::from_millis(3000) {
+            if let Ok(Some(rq)) = server.recv_timeout(Duration::from_millis(20)) {
+                let _ = rq.respond(Response::from_string("pre"));
+                got += 1;
+            }
+        }
+        for s in pre.iter_mut() {
+            s.set_read_timeout(Some(Duration::from_millis(500)));
+            let mut b = [0u8; 512];
+            let _ = s.read(&mut b);
+        }
+        drop(pre);
+        std::thread::sleep(Duration::from_millis(idle));
+    }
     let mut conns: Vec<crate::cv::Conn> = Vec::new();
     for c in 0..nconn {
         let mut s = if kind == "t" {
